@@ -25,7 +25,7 @@ fn run_from(o: &Opts, vary_root: bool) {
 /// or as sudo instead of execute: same composition rules, own first event; migrate results are wrapped
 /// like execute results (seed C04d), no wrapping is specified for sudo
 fn run_with(o: &Opts, vary_root: bool, adapted: bool) {
-    let root_entry = if vary_root { 1 + choose(2) } else { 0 };
+    let root_entry = if vary_root { 1 + choose(3) } else { 0 };
     let mut w = world_of(o.max_depth + 1, adapted);
     let root = gen_tree(o);
     let mut uids = BTreeMap::new();
@@ -43,6 +43,8 @@ fn run_with(o: &Opts, vary_root: bool, adapted: bool) {
     let r = catch(|| {
         if root_entry == 1 {
             w.app.sudo(SudoMsg::Wasm(WasmSudo { contract_addr: k0.clone(), message: script.bin() }))
+        } else if root_entry == 3 {
+            w.app.wasm_sudo(k0.clone(), &script)
         } else {
             w.app.execute(user, msg)
         }
@@ -61,7 +63,7 @@ fn run_with(o: &Opts, vary_root: bool, adapted: bool) {
         (Ok(resp), Ok((_, mut out))) => {
             witness("ok");
             match root_entry {
-                1 => out.events[0] = "sudo@0[]".into(),
+                1 | 3 => out.events[0] = "sudo@0[]".into(),
                 2 => out.events[0] = "migrate@0[code_id=1]".into(),
                 _ => {}
             }
@@ -69,7 +71,7 @@ fn run_with(o: &Opts, vary_root: bool, adapted: bool) {
             check_native("events_in_execution_order_per_wasmd_rules", got == out.events, || format!("expected {:?} got {:?}", out.events, got));
             let want = out.data.as_ref().map(|d| encode_exec(d));
             let gotd = resp.data.as_ref().map(|d| d.to_vec());
-            if root_entry != 1 {
+            if root_entry != 1 && root_entry != 3 {
                 check_native("data_is_last_reply_data_else_own_wrapped_only_when_present", gotd == want, || {
                     format!("expected {:?} got {:?}", want, gotd)
                 });
